@@ -153,7 +153,7 @@ impl Driver for C03 {
         10.0
     }
     fn units(&self, tier: Tier) -> usize {
-        tier.pick(6000, 100000)
+        tier.pick(6000, 400000)
     }
     fn run_unit(&self, ctx: &Ctx, out: &mut UnitOut, start: usize, only: Option<usize>) {
         let mut rng = unit_rng(ctx, "C03", out.unit);
